@@ -156,7 +156,7 @@ def gen_case(ctx, forest, treenames, tree_entries_names):
     argv = [a for gpart in groups for a in gpart]
     post = False
     return dict(roots=roots, toks=["t%d" % sorted_pid] + toks, argv=["-sorted"] + argv, prims=g.prims, valid=valid,
-                treekey=tuple(roots), post=post)
+                treekey=tuple(roots), post=post, groups=[["-sorted"]] + groups)
 
 
 def tokens_for_juxt(toks):
@@ -232,8 +232,30 @@ def evaluate(ctx, forest, cases):
     return bad
 
 
+def shrink(forest, c):
+    """drop tokens (with their argv words) while the implementation still disagrees with the model"""
+    def fails(idx):
+        d = dict(c, toks=[c["toks"][i] for i in idx], groups=[c["groups"][i] for i in idx])
+        d["argv"] = [a for g in d["groups"] for a in g]
+        b = evaluate(fw.Ctx("C01", "quick", 0), forest, [d])
+        return bool(b)
+    idx = fw.shrink_list(list(range(len(c["toks"]))), lambda l: 0 in l and fails(l), max_steps=150)
+    d = dict(c, toks=[c["toks"][i] for i in idx], groups=[c["groups"][i] for i in idx])
+    d["argv"] = [a for g in d["groups"] for a in g]
+    if len(d["roots"]) > 1:
+        e = dict(d, roots=d["roots"][:1], treekey=tuple(d["roots"][:1]))
+        if evaluate(fw.Ctx("C01", "quick", 0), forest, [e]):
+            d = e
+    b = evaluate(fw.Ctx("C01", "quick", 0), forest, [d])
+    return b[0] if b else None
+
+
 def report(ctx, forest, bad):
+    shrunk = []
     for c, got, exp in bad[:2]:
+        r = shrink(forest, c) if "groups" in c else None
+        shrunk.append(r if r else (c, got, exp))
+    for c, got, exp in shrunk:
         ctx.violation("find %s %s: exit %s output %r; reference evaluation of the grammar: exit %s output %r"
                       % (c["roots"], " ".join(c["argv"]), got[0], got[1][:300], exp[0], exp[1][:300]),
                       {"property": "C01", "kind": "correspondence", "find_args": [r.decode() for r in c["roots"]] + c["argv"],
